@@ -1,11 +1,15 @@
 import NdnModel.Pit
 /-  Line protocol for the PIT model:
-    `C03 <v1|v2> <t>@<ev>;<t>@<ev>;…`     (`.` = empty history); every event is preceded by `tick t`
-      ev ::= x:<name>:<imp>:<cbp>:<lifetime>:<verdict>:<lat> | d:<name>:<digest>:<dataId>
-           | n:<name>:<imp>:<reason> | c:<i> | s | t
-      name ::= c1.c2.…  (`~` = empty)     imp ::= ~ | <digestId>
-    answer: `ok <nodes>/<entries>/<errs> … | <i>=<state> … | <i>.<d>.<t> …`
-      (PIT size and error count after each event, final state of every Interest, validator calls) -/
+    `C03 <v1|v2> <turn>;<turn>;…`     (`.` = empty history)
+      turn ::= <t>@<ev>+<ev>+…  |  <t>@t          the events that share the loop turn of instant <t> (`t`: none)
+      ev ::= x:<name>:<imp>:<cbp>:<lifetime>:<verdict>:<lat>:<defer>:<nr> | d:<name>:<digest>:<dataId>
+           | n:<name>:<imp>:<reason> | c:<i> | s
+      name ::= c1.c2.…  (`~` = empty)     imp ::= ~ | <digestId>     cbp, nr ::= 0 | 1
+    answer: `ok <nodes>/<entries>/<errs> … | <i>=<state> … | <i>.<d>.<t> … | <alt> ; <alt> …`
+      (PIT size and error count after each turn, final state of every Interest, validator calls - all three for the
+       plain reading: timers first, then the events as listed; then the final state vectors of the other
+       linearisations - each event before or after the timers of its instant, the events of a turn in any order -
+       that differ from the plain reading's, `.` when there is none) -/
 namespace Ndn.Drv.C03
 open Ndn Ndn.Pit
 
@@ -18,33 +22,34 @@ def parseOpt (s : String) : Option (Option Nat) :=
 def parseVerdict : String → Option Verdict
   | "FAIL" => some .fail | "TIMEOUT" => some .timeout | "SILENCE" => some .silence | "PASS" => some .pass
   | "ALLOW_BYPASS" => some .allowBypass | "RAISE_TIMEOUT" => some .raiseTimeout | "RAISE_OTHER" => some .raiseOther
+  | "OTHER" => some .other
   | _ => none
 
 def showVerdict : Verdict → String
   | .fail => "FAIL" | .timeout => "TIMEOUT" | .silence => "SILENCE" | .pass => "PASS"
   | .allowBypass => "ALLOW_BYPASS" | .raiseTimeout => "RAISE_TIMEOUT" | .raiseOther => "RAISE_OTHER"
+  | .other => "OTHER"
 
 def parseBool : String → Option Bool
   | "0" => some false | "1" => some true | _ => none
 
 def parseEv (s : String) : Option Ev :=
   match s.splitOn ":" with
-  | ["x", nm, imp, cbp, life, v, lat] => do
-    let life ← life.toNat?
-    if life = 0 then none
-    pure (.express (← parseName nm) (← parseOpt imp) (← parseBool cbp) life (← parseVerdict v) (← lat.toNat?))
+  | ["x", nm, imp, cbp, life, v, lat, defer, nr] => do
+    pure (.express (← parseName nm) (← parseOpt imp) (← parseBool cbp) (← life.toNat?) (← parseVerdict v)
+      (← lat.toNat?) (← defer.toNat?) (← parseBool nr))
   | ["d", nm, dg, d] => do pure (.data (← parseName nm) (← dg.toNat?) (← d.toNat?))
   | ["n", nm, imp, r] => do pure (.nack (← parseName nm) (← parseOpt imp) (← r.toNat?))
   | ["c", i] => do pure (.cancel (← i.toNat?))
   | ["s"] => some .shutdown
   | _ => none
 
-/-- `<t>@<ev>` → `[tick t, ev]`; `<t>@t` → `[tick t]` -/
-def parseTimed (s : String) : Option (List Ev) :=
+/-- `<t>@<ev>+<ev>` → the turn; `<t>@t` → a turn without events -/
+def parseTurn (s : String) : Option Turn :=
   match s.splitOn "@" with
   | [t, e] => do
     let t ← t.toNat?
-    if e == "t" then pure [.tick t] else pure [.tick t, ← parseEv e]
+    if e == "t" then pure ⟨t, []⟩ else pure ⟨t, ← (e.splitOn "+").mapM parseEv⟩
   | _ => none
 
 def showOutcome : Outcome → String
@@ -54,38 +59,45 @@ def showOutcome : Outcome → String
   | .cancelled => "C"
   | .valFail d v => "F" ++ toString d ++ "." ++ showVerdict v
   | .validatorError d => "E" ++ toString d
+  | .noResponse => "R"
 
 def showSt : IState → String
   | .waiting => "W"
   | .validating d fin => "V" ++ toString d ++ "@" ++ toString fin
   | .done o t => showOutcome o ++ "@" ++ toString t
+  | .held o => "H" ++ showOutcome o
 
 def showObs (σ : State) : String :=
   let p := pitSize σ
   toString p.1 ++ "/" ++ toString p.2 ++ "/" ++ toString σ.errs.length
 
-def runShow (fe : FrontEnd) (σ : State) : List (List Ev) → List String × State
-  | [] => ([], σ)
-  | g :: r =>
-    let σ' := g.foldl (step fe) σ
-    let (os, σf) := runShow fe σ' r
-    (showObs σ' :: os, σf)
+/-- turn by turn: the plain reading (observed after every turn) and the set of states of all linearisations -/
+def runShow (fe : FrontEnd) (σ : State) (S : List State) : List Turn → List String × State × List State
+  | [] => ([], σ, S)
+  | u :: r =>
+    let σ' := (Ev.tick u.t :: u.evs).foldl (step fe) σ
+    let (os, σf, Sf) := runShow fe σ' (stepTurn fe S u) r
+    (showObs σ' :: os, σf, Sf)
+
+def showSts (sts : List IState) : String :=
+  let is := (List.range sts.length).zip sts
+  if is.isEmpty then "." else " ".intercalate (is.map fun p => toString p.1 ++ "=" ++ showSt p.2)
 
 def showFinal (σ : State) : String :=
-  let is := (List.range σ.sts.length).zip σ.sts
-  let a := if is.isEmpty then "." else " ".intercalate (is.map fun p => toString p.1 ++ "=" ++ showSt p.2)
   let b := if σ.vcalls.isEmpty then "." else
     " ".intercalate (σ.vcalls.map fun c => toString c.1 ++ "." ++ toString c.2.1 ++ "." ++ toString c.2.2)
-  a ++ " | " ++ b
+  showSts σ.sts ++ " | " ++ b
 
 def handle (args : List String) : String :=
   match args with
   | [fe, evs] =>
     let fe? : Option FrontEnd := if fe == "v1" then some .v1 else if fe == "v2" then some .v2 else none
-    match fe?, (if evs == "." then some [] else (evs.splitOn ";").mapM parseTimed) with
-    | some fe, some gs =>
-      let (os, σ) := runShow fe init gs
-      "ok " ++ (if os.isEmpty then "." else " ".intercalate os) ++ " | " ++ showFinal σ
+    match fe?, (if evs == "." then some [] else (evs.splitOn ";").mapM parseTurn) with
+    | some fe, some h =>
+      let (os, σ, S) := runShow fe init [init] h
+      let alts := dedup ((S.map (·.sts)).filter (· != σ.sts))
+      "ok " ++ (if os.isEmpty then "." else " ".intercalate os) ++ " | " ++ showFinal σ ++ " | " ++
+        (if alts.isEmpty then "." else " ; ".intercalate (alts.map showSts))
     | _, _ => "bad-op"
   | _ => "bad-op"
 
